@@ -66,7 +66,7 @@ type SugarDB struct {
 	// connInfo holds the connection information for embedded and TCP clients.
 	// It keeps track of the protocol and database that each client is operating on.
 	connInfo struct {
-		mut        *sync.RWMutex                         // RWMutex for the connInfo object.
+		mut        *verifhook.RWMutex                    // RWMutex for the connInfo object.
 		tcpClients map[*net.Conn]internal.ConnectionInfo // Map that holds connection information for each TCP client.
 		embedded   internal.ConnectionInfo               // Information for the embedded connection.
 	}
@@ -156,11 +156,11 @@ func NewSugarDB(options ...func(sugarDB *SugarDB)) (*SugarDB, error) {
 		context: context.Background(),
 		config:  config.DefaultConfig(),
 		connInfo: struct {
-			mut        *sync.RWMutex
+			mut        *verifhook.RWMutex
 			tcpClients map[*net.Conn]internal.ConnectionInfo
 			embedded   internal.ConnectionInfo
 		}{
-			mut:        &sync.RWMutex{},
+			mut:        &verifhook.RWMutex{},
 			tcpClients: make(map[*net.Conn]internal.ConnectionInfo),
 			embedded: internal.ConnectionInfo{
 				Id:       0,
@@ -197,6 +197,9 @@ func NewSugarDB(options ...func(sugarDB *SugarDB)) (*SugarDB, error) {
 		quit:    make(chan struct{}),
 		stopTTL: make(chan struct{}),
 	}
+
+	verifhook.NameLock(sugarDB.connInfo.mut, "conninfo")
+	verifhook.NameLock(sugarDB.storeLock, "store")
 
 	for _, option := range options {
 		option(sugarDB)
